@@ -233,10 +233,16 @@ func TestVerifC11Proxy(t *testing.T) {
 	}
 	defer bk.stop()
 
+	replay := c11ReplayCase("proxy")
+	want := func(target string) bool { return replay == nil || replay.Target == target }
+	var addr string
+	var stop func()
 	// 1. ready proxy in front of the live broker
-	addr, stop := c11pStartProxy(t, []string{bk.addr}, true, bk.addr)
-	c11RunMatrix(r, c11Matrix{target: "proxy", addr: addr, salt: 5000000, requireReply: true, scale: 1, partitionZeroOnly: true})
-	stop()
+	if want("proxy") {
+		addr, stop = c11pStartProxy(t, []string{bk.addr}, true, bk.addr)
+		c11RunMatrix(r, c11Matrix{target: "proxy", addr: addr, salt: 5000000, requireReply: true, scale: 1, partitionZeroOnly: true, replay: replay})
+		stop()
+	}
 	// the broker must have survived (a dead backend would turn every later reply into a proxy-made error reply)
 	if c, err := net.DialTimeout("tcp", bk.addr, 2*time.Second); err != nil {
 		b, _ := os.ReadFile(bk.log)
@@ -248,20 +254,28 @@ func TestVerifC11Proxy(t *testing.T) {
 		c.Close()
 	}
 	// 2. proxy that has no backend yet (not ready): locally built replies for every API
-	addr, stop = c11pStartProxy(t, nil, false, bk.addr)
-	c11RunMatrix(r, c11Matrix{target: "proxy_not_ready", addr: addr, salt: 6000000, scale: 0.4, partitionZeroOnly: true, onlyListedKeys: true})
-	stop()
+	if want("proxy_not_ready") {
+		addr, stop = c11pStartProxy(t, nil, false, bk.addr)
+		c11RunMatrix(r, c11Matrix{target: "proxy_not_ready", addr: addr, salt: 6000000, scale: 0.4, partitionZeroOnly: true, onlyListedKeys: true, replay: replay})
+		stop()
+	}
 	// 3. backend configured but down
-	dead, _ := c11pFreeAddr(t)
-	addr, stop = c11pStartProxy(t, []string{dead}, true, dead)
+	if want("proxy_backend_down") {
+		dead, _ := c11pFreeAddr(t)
+		addr, stop = c11pStartProxy(t, []string{dead}, true, dead)
 	// only the APIs for which the proxy builds the error reply from the request it parsed itself (Produce, Fetch) or answers
 	// locally (Metadata, FindCoordinator, ApiVersions). For the others respondBackendError hands the whole frame payload
 	// (header included) to the body decoder, whose tag loop then spins on the garbage for minutes (observation).
-	c11RunMatrix(r, c11Matrix{target: "proxy_backend_down", addr: addr, salt: 7000000, scale: 0.5, partitionZeroOnly: true, onlyKeys: map[int16]bool{0: true, 1: true, 3: true, 10: true, 18: true}})
-	stop()
+	c11RunMatrix(r, c11Matrix{target: "proxy_backend_down", addr: addr, salt: 7000000, scale: 0.5, partitionZeroOnly: true, onlyKeys: map[int16]bool{0: true, 1: true, 3: true, 10: true, 18: true}, replay: replay})
+		stop()
+	}
 
-	r.Floor("advertised_pairs", 120)
-	r.Floor("replies_decoded", 800)
-	r.Floor("replies_flexible_header", 80)
-	r.Floor("unadvertised_pairs", 300)
+	if replay == nil {
+		r.Floor("advertised_pairs", 120)
+		r.Floor("replies_decoded", 800)
+		r.Floor("replies_flexible_header", 80)
+		r.Floor("unadvertised_pairs", 300)
+		r.Floor("content_produce_partition_ok", 10)
+		r.Floor("content_fetch_partition_with_records", 1)
+	}
 }
